@@ -53,6 +53,9 @@ def input_trees(r):
     out["many-files"] = (many, ["--block-size", "4096", "-r", "src", "dst"])
     out["zero-length-only"] = ([D("src")] + [F("src/z%d" % i, 0, i + 1) for i in range(40)], ["-r", "src", "dst"])
     out["multi-block"] = ([D("src"), F("src/m1", 300000, 1), F("src/m2", 1 << 20, 2), F("src/m3", 4097, 3)], ["--block-size", "4096", "-r", "src", "dst"])
+    # --fsync with far more block jobs queued than the pool's queue holds (finalisation work competing for the same pool)
+    out["many-files-fsync"] = (many, ["--fsync", "--block-size", "4096", "-r", "src", "dst"])
+    out["multi-block-fsync"] = ([D("src"), F("src/m1", 1 << 20, 1), F("src/m2", 1 << 20, 2), F("src/m3", (1 << 20) + 4097, 3)], ["--fsync", "--block-size", "4096", "-r", "src", "dst"])
     out["noclobber-collision"] = ([D("src")] + [F("src/f%d" % i, 100, i + 1) for i in range(30)] + [D("dst"), D("dst/src"), F("dst/src/f29", 5, 99)],
                                   ["-n", "-r", "src", "dst"])
     out["block-device"] = ([D("src")] + [F("src/f%d" % i, 100, i + 1) for i in range(20)] + [{"p": "src/zblk", "k": "blk", "rdev": [7, 99]}], ["-r", "src", "dst"])
